@@ -13,11 +13,15 @@ from tools import vlib
 import json
 import glob
 groups = {}
-for g in sorted(glob.glob("harness/*/GROUP")):
-    groups[os.path.basename(os.path.dirname(g))] = open(g).read().strip()
+for g in sorted(glob.glob("harness/*/GROUP")) + sorted(glob.glob("harness/*/*/GROUP")):
+    groups[os.path.relpath(os.path.dirname(g), "harness")] = open(g).read().strip()
 for crate, group in groups.items():
     ok, d, log = vlib.cargo_build(crate, group)
     print("setup: harness", crate, "ok" if ok else "FAILED")
     if not ok:
         print(log[-2000:])
 PY
+# warm the caches that are filled at run time (compiled simulations of harness/h_sim/e2e)
+if [ -f tools/warm_e2e.py ]; then
+    timeout 3000 python3 tools/warm_e2e.py || echo "setup: e2e warm-up incomplete (C37/C38 will compile on first use)"
+fi
